@@ -11,6 +11,7 @@ import (
 	"strings"
 	"time"
 
+	"github.com/cloudwego/eino/components/tool"
 	"github.com/cloudwego/eino/compose"
 	"github.com/cloudwego/eino/schema"
 	"github.com/cloudwego/eino/verifharness/vh"
@@ -340,6 +341,97 @@ func c13ForwarderPanic(n int) (class string) {
 	return "error-item"
 }
 
+// tool panic: a ToolsNode with several calls, one of which panics; the run must return an
+// error in every paradigm (the panicking call may run on a framework goroutine: if it is not
+// recovered there the whole process dies, which the check reports as a crash on this case).
+type c13Tool struct {
+	name  string
+	panic bool
+}
+
+func (t *c13Tool) Info(ctx context.Context) (*schema.ToolInfo, error) {
+	return &schema.ToolInfo{Name: t.name, Desc: "c13 tool"}, nil
+}
+
+func (t *c13Tool) InvokableRun(ctx context.Context, args string, opts ...tool.Option) (string, error) {
+	if t.panic {
+		panic("tool-boom-" + t.name)
+	}
+	return "ok:" + t.name + ":" + args, nil
+}
+
+func c13ToolPanic(c *c13Case) (class string) {
+	n := c.Siblings + 2 // number of calls
+	bad := c.Target % n // index of the panicking call
+	var tools []tool.BaseTool
+	var calls []schema.ToolCall
+	for i := 0; i < n; i++ {
+		name := fmt.Sprintf("t%d", i)
+		tools = append(tools, &c13Tool{name: name, panic: i == bad})
+		calls = append(calls, schema.ToolCall{ID: fmt.Sprintf("id%d", i), Function: schema.FunctionCall{Name: name, Arguments: "{}"}})
+	}
+	ctx := context.Background()
+	tn, err := compose.NewToolNode(ctx, &compose.ToolsNodeConfig{Tools: tools})
+	if err != nil {
+		return "build-error:" + err.Error()
+	}
+	g := compose.NewGraph[string, []*schema.Message]()
+	g.AddLambdaNode("ask", compose.InvokableLambda(func(ctx context.Context, in string) (*schema.Message, error) {
+		return &schema.Message{Role: schema.Assistant, ToolCalls: calls}, nil
+	}))
+	g.AddToolsNode("tools", tn)
+	g.AddEdge(compose.START, "ask")
+	g.AddEdge("ask", "tools")
+	g.AddEdge("tools", compose.END)
+	r, err := g.Compile(ctx)
+	if err != nil {
+		return "compile-error:" + err.Error()
+	}
+	var runErr error
+	drain := func(sr *schema.StreamReader[[]*schema.Message], err error) error {
+		if err != nil {
+			return err
+		}
+		defer sr.Close()
+		for {
+			_, e := sr.Recv()
+			if e == io.EOF {
+				return nil
+			}
+			if e != nil {
+				return e
+			}
+		}
+	}
+	finished := false
+	if panicked, pv := vh.Safely(func() {
+		finished = vh.WithTimeout(20*time.Second, func() {
+			switch c.Paradigm {
+			case "stream":
+				runErr = drain(r.Stream(ctx, "x"))
+			case "collect":
+				_, runErr = r.Collect(ctx, schema.StreamReaderFromArray([]string{"x", "y"}))
+			case "transform":
+				runErr = drain(r.Transform(ctx, schema.StreamReaderFromArray([]string{"x", "y"})))
+			default:
+				_, runErr = r.Invoke(ctx, "x")
+			}
+		})
+	}); panicked {
+		return fmt.Sprint("panic-escaped:", pv)
+	}
+	if !finished {
+		return "hang"
+	}
+	if runErr == nil {
+		return "swallowed"
+	}
+	if p, ok := compose.VerifErrNodePath(runErr); !ok || len(p) != 1 || p[0] != "tools" {
+		return fmt.Sprintf("wrong-path:%v", p)
+	}
+	return "error"
+}
+
 // ---- generator ----
 
 func c13Gen(r *vh.Rand) *c13Case {
@@ -360,7 +452,7 @@ func c13Gen(r *vh.Rand) *c13Case {
 		c.GraphLevel = true
 		nlev := depth - 1
 		for i := 0; i < nlev; i++ {
-			c.Levels = append(c.Levels, c13Level{Key: fmt.Sprintf("%s%d", names[r.Intn(len(names))], i)})
+			c.Levels = append(c.Levels, c13Level{Key: c13LevelKey(r, names, i)})
 		}
 		if c.Kind == "maxsteps" {
 			c.Err = c13Err{K: "leaf", ID: 1000}
@@ -372,7 +464,7 @@ func c13Gen(r *vh.Rand) *c13Case {
 		c.AsCustom = false
 	default:
 		for i := 0; i < depth; i++ {
-			c.Levels = append(c.Levels, c13Level{Key: fmt.Sprintf("%s%d", names[r.Intn(len(names))], i)})
+			c.Levels = append(c.Levels, c13Level{Key: c13LevelKey(r, names, i)})
 		}
 		id := r.Range(1, 5)
 		e := c13Err{K: "leaf", ID: id}
@@ -402,6 +494,14 @@ func c13Gen(r *vh.Rand) *c13Case {
 		c.Levels = []c13Level{}
 	}
 	return c
+}
+
+// level keys: often the SAME key at adjacent nesting levels (keys are only unique per graph)
+func c13LevelKey(r *vh.Rand, names []string, i int) string {
+	if r.Chance(45) {
+		return names[r.Intn(2)]
+	}
+	return fmt.Sprintf("%s%d", names[r.Intn(len(names))], i)
 }
 
 func c13Key(c *c13Case) string {
@@ -460,6 +560,12 @@ func runC13(ctx *vh.Ctx) error {
 		if err := json.Unmarshal(ctx.Replay, &c); err != nil {
 			return err
 		}
+		if c.Kind == "toolpanic" {
+			if cl := c13ToolPanic(&c); cl != "error" {
+				ctx.Res.Disagree(vh.Disagreement{Signature: "C13:tool-panic:" + strings.SplitN(cl, ":", 2)[0], What: "panic in a tool call: " + cl, Case: c})
+			}
+			return nil
+		}
 		if c.Kind == "fwdpanic" {
 			if cl := c13ForwarderPanic(c.Siblings); cl != "error-item" {
 				ctx.Res.Disagree(vh.Disagreement{Signature: "C13:forwarder-panic:" + cl, What: "panic in a stream-forwarding goroutine: " + cl, Case: c})
@@ -473,6 +579,20 @@ func runC13(ctx *vh.Ctx) error {
 		c := c13Gen(ctx.Rng)
 		if err := c13One(ctx, c); err != nil {
 			return err
+		}
+	}
+	for _, par := range []string{"invoke", "stream", "collect", "transform"} {
+		for calls := 0; calls < 3; calls++ {
+			for bad := 0; bad < calls+2; bad++ {
+				c := &c13Case{Kind: "toolpanic", Paradigm: par, Siblings: calls, Target: bad, Levels: []c13Level{}}
+				ctx.Progress.Mark(c)
+				cl := c13ToolPanic(c)
+				ctx.Res.Dist("toolpanic=" + strings.SplitN(cl, ":", 2)[0])
+				ctx.Res.Count(fmt.Sprintf("toolpanic/%s/%d/%d", par, calls, bad), true)
+				if cl != "error" {
+					ctx.Res.Disagree(vh.Disagreement{Signature: "C13:tool-panic:" + strings.SplitN(cl, ":", 2)[0], What: "panic in tool call " + fmt.Sprint(bad) + " of " + fmt.Sprint(calls+2) + " (" + par + "): " + cl, Case: c})
+				}
+			}
 		}
 	}
 	for k := 1; k <= 6; k++ {
